@@ -69,8 +69,93 @@ def run(ctx, obs):
     for m, q in ESTIMATORS.items():
         if mean_first(ctx, obs, q) == 0:
             obs.unk('MEAN-FIRST', q, 'condition means are computed by _parse_input / average_dataset_by', 'no averaging call found')
+    float_input(ctx, obs)
     # 8. PLACE: list-of-datasets branch with a condition descriptor: from_partials places every input through its position map
     partial_placement(ctx, obs)
+
+
+def _enclosing_tests(root, stmt):
+    out = []
+
+    def rec(n, acc):
+        if n is stmt:
+            out.extend(acc)
+            return True
+        for ch in ast.iter_child_nodes(n):
+            if rec(ch, acc + ([n.test] if isinstance(n, ast.If) else [])):
+                return True
+        return False
+    rec(root, [])
+    return out
+
+
+def float_input(ctx, obs, rule='FLOAT-IN'):
+    """The estimators square, multiply and subtract the pattern matrix that `_parse_input` hands them.  In an integer dtype these
+    operations wrap around silently (uint8 / int16 recordings are common), so "integer or float data change nothing" needs the
+    matrix to be floating point on EVERY path: the per-condition averages are (np.mean), the dataset's own array is only if it is
+    converted (astype / asarray with a float dtype).  A path that hands `dataset.measurements` on as it is - no descriptor, or a
+    shortcut "nothing to average" - is a violation."""
+    prog = ctx.prog
+    q = CALC + '_parse_input'
+    f = prog.func(q)
+    r = ctx.dep.result(q)
+    rets = [n for n, _, _ in r.returns if n is not None and n.value is not None]
+    for node in rets:
+        v = node.value.elts[0] if isinstance(node.value, ast.Tuple) and node.value.elts else node.value
+        if not isinstance(v, ast.Name):
+            obs.unk(rule, q, 'the patterns handed to the estimators are floating point', f'`{norm(v)[:40]}` is not a plain name', where(prog, f, node))
+            continue
+        seen = set()
+
+        def kinds(name_node, depth=0):
+            out = []
+            for i in r.load_defs.get(id(name_node), ()):
+                if i in seen:
+                    continue
+                seen.add(i)
+                d = r.defs[i]
+                rhs = d.rhs if d.rhs is not None else (d.node.value if isinstance(d.node, ast.Assign) else None)
+                if rhs is None:
+                    out.append(('unknown', d.node))
+                elif isinstance(rhs, ast.Call) and norm(rhs.func).split('.')[-1] in ('average_dataset_by', 'mean', 'nanmean', 'average'):
+                    out.append(('float', d.node))
+                elif isinstance(rhs, ast.Call) and norm(rhs.func).split('.')[-1] in ('astype', 'asarray', 'array', 'asfarray', 'float64') \
+                        and ('float' in norm(rhs) or norm(rhs.func).split('.')[-1] in ('asfarray', 'float64')):
+                    out.append(('float', d.node))
+                elif isinstance(rhs, ast.Attribute) and rhs.attr == 'measurements':
+                    out.append(('raw', d.node))
+                elif isinstance(rhs, ast.BinOp) and depth < 4:
+                    sub = [k for x in ast.walk(rhs) if isinstance(x, ast.Name) and id(x) in r.load_defs for k in kinds(x, depth + 1)]
+                    float_op = any(isinstance(x, ast.Call) and norm(x.func).split('.')[-1] in ('mean', 'nanmean') for x in ast.walk(rhs))
+                    # an operand that is a mean (float) or a true division makes the result float whatever the other operand is
+                    out += [('float', d.node)] if (float_op or isinstance(rhs.op, ast.Div)) else (sub or [('unknown', d.node)])
+                elif isinstance(rhs, ast.Name) and depth < 4:
+                    out += kinds(rhs, depth + 1)
+                else:
+                    out.append(('unknown', d.node))
+            return out
+        ks = kinds(v)
+        con = 'the patterns handed to the estimators are floating point on every path'
+        raw = [n_ for k, n_ in ks if k == 'raw']
+        # `x = ds.measurements; if not np.issubdtype(x.dtype, np.floating): x = x.astype(float)`: the raw definition only survives
+        # on the path where the dtype test found floating-point data
+        guarded = [n_ for k, n_ in ks if k == 'float' and isinstance(n_, ast.Assign) and any(
+            'floating' in norm(g) or 'dtype.kind' in norm(g) for g in _enclosing_tests(f.node, n_))]
+        if raw and guarded:
+            covered = set()
+            for g_ in guarded:
+                for x in ast.walk(g_.value):
+                    if isinstance(x, ast.Name):
+                        for i in r.load_defs.get(id(x), ()):
+                            covered.add(id(r.defs[i].node))
+            raw = [n_ for n_ in raw if id(n_) not in covered]
+        if raw:
+            obs.bad(rule, q, con, f'`{norm(raw[0])[:70]}` hands the dataset\'s own array on without a conversion: for integer-typed data '
+                    f'(uint8, int16) the squares and products of the estimators wrap around and the distances are wrong', where(prog, f, raw[0]))
+        elif any(k == 'unknown' for k, _ in ks):
+            obs.unk(rule, q, con, 'the origin of one definition is not recognised', where(prog, f, node))
+        else:
+            obs.ok(rule, q, con, '', where(prog, f, node))
 
 
 def partial_placement(ctx, obs, rule='PLACE'):
@@ -93,6 +178,19 @@ def partial_placement(ctx, obs, rule='PLACE'):
         if isinstance(v, ast.Name):
             buf = v.id
     con = 'every input RDM is written into the merged vectors through its position map (label -> position in the common list)'
+    # positions taken from a MEMBERSHIP MASK of the common list (np.isin(all, own)) follow the order of the common list; the block
+    # written with them (the partial RDM in its OWN order) does not: right only when the partial lists its patterns in the common order
+    masks = {st.targets[0].id: st for st in ast.walk(f.node) if isinstance(st, ast.Assign) and len(st.targets) == 1
+             and isinstance(st.targets[0], ast.Name) and isinstance(st.value, ast.Call) and norm(st.value.func).split('.')[-1] in ('isin', 'in1d')}
+    for st in ast.walk(f.node):
+        if isinstance(st, ast.Assign) and isinstance(st.targets[0], ast.Subscript) and isinstance(st.targets[0].slice, ast.Call) \
+                and norm(st.targets[0].slice.func).split('.')[-1] == 'ix_' \
+                and any(isinstance(a, ast.Name) and a.id in masks for a in st.targets[0].slice.args):
+            m = next(a.id for a in st.targets[0].slice.args if isinstance(a, ast.Name) and a.id in masks)
+            obs.bad(rule, q, con, f'`{norm(st)[:80]}` places the partial RDM with the membership mask `{norm(masks[m])[:60]}`: the mask selects '
+                    f'rows / columns in the order of the common list, the block keeps the partial\'s own order - values land under other '
+                    f'labels whenever the two orders differ', where(prog, f, st))
+            return
     if pos is None or buf is None:
         obs.unk(rule, q, con, f'position map / result buffer not recognised (map: {pos}, buffer: {buf})', where(prog, f, f.node))
         return
